@@ -30,6 +30,7 @@ func randValidCfg(rng *rand.Rand) *CfgSpec {
 	c.PNA = choose(rng, []int{pnaOff, pnaOff, pnaOn, pnaNoCors})
 	c.TolInsecure = rng.IntN(3) == 0
 	c.TolPSL = rng.IntN(3) == 0
+	c.NonNilEmpty = rng.IntN(3) == 0
 	restricted := c.Cred || c.PNA != pnaOff
 	var pool []OAtom
 	pool = append(pool, secureOriginAtoms...)
@@ -124,8 +125,12 @@ var cfgInjectors = []struct {
 	f    func(rng *rand.Rand, c *CfgSpec)
 }{
 	{"origin-invalid", func(rng *rand.Rand, c *CfgSpec) { insertAt(rng, &c.Origins, choose(rng, invalidOriginAtoms)) }},
-	{"origin-missing", func(rng *rand.Rand, c *CfgSpec) { c.Origins = nil }},
-	{"origin-star-vs-cred", func(rng *rand.Rand, c *CfgSpec) { c.Cred = true; insertAt(rng, &c.Origins, oStarAtom); dropStar(&c.RespHdrs) }},
+	{"origin-missing", func(rng *rand.Rand, c *CfgSpec) { c.Origins = nil; c.NonNilEmpty = rng.IntN(2) == 0 }},
+	{"origin-star-vs-cred", func(rng *rand.Rand, c *CfgSpec) {
+		c.Cred = true
+		insertAt(rng, &c.Origins, oStarAtom)
+		dropStar(&c.RespHdrs)
+	}},
 	{"origin-star-vs-pna", func(rng *rand.Rand, c *CfgSpec) {
 		if c.PNA == pnaOff {
 			c.PNA = choose(rng, []int{pnaOn, pnaNoCors})
@@ -165,7 +170,11 @@ var cfgInjectors = []struct {
 	{"resphdr-invalid", func(rng *rand.Rand, c *CfgSpec) { insertAt(rng, &c.RespHdrs, choose(rng, invalidHdrAtoms)) }},
 	{"resphdr-forbidden", func(rng *rand.Rand, c *CfgSpec) { insertAt(rng, &c.RespHdrs, choose(rng, forbiddenRespHdrAtoms)) }},
 	{"resphdr-prohibited", func(rng *rand.Rand, c *CfgSpec) { insertAt(rng, &c.RespHdrs, choose(rng, prohibitedRespHdrAtoms)) }},
-	{"resphdr-star-vs-cred", func(rng *rand.Rand, c *CfgSpec) { c.Cred = true; dropStarO(&c.Origins); insertAt(rng, &c.RespHdrs, hStarAtom) }},
+	{"resphdr-star-vs-cred", func(rng *rand.Rand, c *CfgSpec) {
+		c.Cred = true
+		dropStarO(&c.Origins)
+		insertAt(rng, &c.RespHdrs, hStarAtom)
+	}},
 	{"status", func(rng *rand.Rand, c *CfgSpec) { c.Status = choose(rng, invalidStatus) }},
 }
 
